@@ -20,6 +20,11 @@ ENV = dict(os.environ, CARGO_NET_OFFLINE='true', CARGO_TARGET_DIR=TARGET)
 
 from props import PROPS, TRUSTED_BASE, ALLOWED_AXIOMS    # per-property configuration
 
+def target_dir(prof):
+    return TARGET if prof == 'debug' else TARGET + '-rel'
+def exe_path(prof, binary):
+    return os.path.join(target_dir(prof), prof, binary)
+
 def sh(cmd, timeout=1800, cwd=ROOT, env=ENV, stdin=None, stdout=subprocess.PIPE):
     p = subprocess.run(cmd, cwd=cwd, env=env, stdin=stdin, stdout=stdout, stderr=subprocess.STDOUT,
                        timeout=timeout, shell=isinstance(cmd, str), text=(stdout == subprocess.PIPE))
@@ -162,9 +167,13 @@ def build_tools():
     with Lock('build'):
         problems = []
         t0 = time.time()
-        for prof in ('', '--release'):
-            rc, out = sh('timeout 1500 cargo build --offline %s 2>&1' % prof, cwd=HARNESS, timeout=1600)
-            if rc != 0: problems.append('harness build failed (%s): %s' % (prof or 'debug', out[-1500:]))
+        # the debug and the release build run side by side, each in its own target directory
+        def _build(prof):
+            env = dict(ENV, CARGO_TARGET_DIR=target_dir('release' if prof else 'debug'))
+            return prof, sh('timeout 1500 cargo build --offline %s 2>&1' % prof, cwd=HARNESS, timeout=1600, env=env)
+        with concurrent.futures.ThreadPoolExecutor(max_workers=2) as ex:
+            for prof, (rc, out) in ex.map(_build, ('', '--release')):
+                if rc != 0: problems.append('harness build failed (%s): %s' % (prof or 'debug', out[-1500:]))
         ml = os.path.join(ROOT, 'ocaml')
         binp = os.path.join(ROOT, 'bin', 'modelrun')
         srcs = [os.path.join(ml, x) for x in ('model.ml', 'model.mli', 'driver.ml')]
@@ -229,7 +238,7 @@ def run_job(job, rundir, variant='fixed'):
     name, prof, binary, args = job
     stream = os.path.join(rundir, name + '.stream')
     outp = os.path.join(rundir, name + '.model')
-    exe = os.path.join(TARGET, prof, binary)
+    exe = exe_path(prof, binary)
     class _R: pass
     with open(stream, 'w') as f:
         try:
@@ -304,7 +313,7 @@ def correspondence(tier, seed):
         if not problems:
             for prof in ('debug', 'release'):
                 try:
-                    r = subprocess.run([os.path.join(TARGET, prof, 'directed')], capture_output=True, text=True, timeout=300)
+                    r = subprocess.run([exe_path(prof, 'directed')], capture_output=True, text=True, timeout=300)
                     for l in r.stdout.splitlines():
                         ws = l.split(' ', 3)
                         if len(ws) >= 3 and ws[0] == 'DIRECTED':
@@ -432,7 +441,7 @@ def main():
             for prof in ('debug', 'release'):
                 for name in cfg['directed']:
                     try:
-                        r = subprocess.run([os.path.join(TARGET, prof, 'directed'), name], capture_output=True, text=True, timeout=600)
+                        r = subprocess.run([exe_path(prof, 'directed'), name], capture_output=True, text=True, timeout=600)
                         ok = (r.returncode == 0) and (('DIRECTED %s ok' % name) in r.stdout)
                         what = (r.stdout.strip() or ('exit code %s %s' % (r.returncode, r.stderr[-300:])))
                     except Exception as ex:
@@ -453,7 +462,7 @@ def main():
         if m_dir:
             bad = False
             for prof in ('debug', 'release'):
-                r = subprocess.run([os.path.join(TARGET, prof, 'directed'), m_dir.group(1)], capture_output=True, text=True, timeout=300)
+                r = subprocess.run([exe_path(prof, 'directed'), m_dir.group(1)], capture_output=True, text=True, timeout=300)
                 print('%s: %s' % (prof, r.stdout.strip()))
                 bad |= (' ok' not in r.stdout) or r.returncode != 0
             if bad: print('VIOLATION property=%s replay=%s' % (pid, replay))
